@@ -171,6 +171,10 @@ class Lib:
 
     def entry_get(self, run, e, field):
         m = run.st.heap[e.loc]
+        if field == 'rng' and '#rng_shared' in m.cols:
+            # the entry's generator: either the bandit's shared generator or a private copy (symbolic per arm)
+            gen = run.st.alloc(Obj('np.Generator', {'slot': TupleV([Ref(e.loc), ArmV(e.key)])}))
+            return run.st.alloc(Obj('_NumpyRNG', {'seed': Num(fresh('seed', Int)), 'rng': gen}))
         if field in m.cols:
             return wrap(m.vkinds[field], m.cols[field][e.key])
         if m.record_cls:
@@ -181,11 +185,33 @@ class Lib:
 
     def entry_set(self, run, e, field, v):
         m = run.st.heap[e.loc]
+        if field == 'rng' and '#rng_shared' in m.cols:
+            self.store_rng_slot(run, e.loc, e.key, v)
+            return
         if field not in m.cols:
             raise Unsupported('entry store of undeclared column %s' % field)
         run.set_heap(e.loc, m.with_col(field, z3.Store(m.cols[field], e.key, self.col_term(run, m.vkinds[field], v))), 'vals')
 
+    def store_rng_slot(self, run, loc, key, v):
+        m = run.st.heap[loc]
+        if not isinstance(v, Ref):
+            raise Unsupported('rng slot value')
+        shared = getattr(m, 'shared_rng', None)
+        if shared is None:
+            m.shared_rng = shared = v.loc
+        if v.loc == shared:
+            nm = m.with_col('#rng_shared', z3.Store(m.cols['#rng_shared'], key, z3.BoolVal(True)))
+        else:
+            from .libcalls import _rs
+            gen = run.deref(v).fields['rng']
+            nm = m.with_col('#rng_shared', z3.Store(m.cols['#rng_shared'], key, z3.BoolVal(False)))
+            nm = nm.with_col('#rng_state', z3.Store(nm.cols['#rng_state'], key, _rs(run, gen)))
+        nm.shared_rng = shared
+        run.set_heap(loc, nm, 'vals')
+
     def col_term(self, run, vkind, v):
+        if isinstance(v, NoneV) and vkind in ('rseq', 'mat', 'opaque', 'aseq', 'iseq'):
+            return none_const(VKIND_SORT[vkind])
         if vkind == 'real':
             return real(v)
         if vkind == 'int':
@@ -212,6 +238,13 @@ class Lib:
             fields = v.fields if isinstance(v, RecordV) else run.deref(v).fields
             nm = m
             for f, x in fields.items():
+                if f == 'rng' and isinstance(x, Ref) and (not m.cols or '#rng_shared' in nm.cols):
+                    if '#rng_shared' not in nm.cols:
+                        nm.cols['#rng_shared'] = fresh('col_rng_shared', z3.ArraySort(Arm, Bool))
+                        nm.cols['#rng_state'] = fresh('col_rng_state', z3.ArraySort(Arm, Rng))
+                        nm.vkinds['#rng_shared'] = 'bool'
+                        nm.vkinds['#rng_state'] = 'rngstate'
+                    continue
                 if f not in nm.cols:
                     if not m.cols:
                         vk = _vkind_of(x)
@@ -222,6 +255,15 @@ class Lib:
                 nm = nm.with_col(f, z3.Store(nm.cols[f], k, self.col_term(run, nm.vkinds[f], x)))
             if isinstance(v, Ref):
                 nm.record_cls = run.deref(v).cls
+            if getattr(m, 'shared_rng', None) is not None:
+                nm.shared_rng = m.shared_rng
+            if '#rng_shared' in nm.cols and 'rng' in fields:
+                newkeys = m.keys if run.entails(T.amem(m.keys, k)) else (
+                    T.aappend(m.keys, k) if run.entails(z3.Not(T.amem(m.keys, k)))
+                    else z3.If(T.amem(m.keys, k), m.keys, T.aappend(m.keys, k)))
+                run.set_heap(ref.loc, nm.with_keys(newkeys), 'vals' if z3.eq(newkeys, m.keys) else '*')
+                self.store_rng_slot(run, ref.loc, k, fields['rng'])
+                return
         elif isinstance(v, Ref) and isinstance(run.deref(v), MapO) and run.deref(v).is_scalar and \
                 (not m.cols or set(m.cols) == {'#keys', '#vals'}):
             inner = run.deref(v)
@@ -598,6 +640,8 @@ class Lib:
                 return T_isnone(other.term)
             if isinstance(other, OptArmV):
                 return other.term == OptArm.none
+            if isinstance(other, (SeqV, MatV)):
+                return other.term == none_const(other.term.sort())
             return z3.BoolVal(False)
         if isinstance(a, Ref) and isinstance(b, Ref):
             return z3.BoolVal(a.loc == b.loc)
@@ -630,7 +674,7 @@ class Lib:
 
     # ------------------------------------------------------------------------------------- calls
     def call(self, run, name, recv, args, kwargs, node=None):
-        from . import libcalls
+        from . import libcalls, liblinalg, libml      # noqa: registration of the call table
         h = libcalls.TABLE.get(name)
         if h is None:
             # method tables by receiver kind
@@ -641,6 +685,17 @@ class Lib:
     def call_opaque(self, run, f, args, kwargs):
         from . import libcalls
         return libcalls.call_opaque(self, run, f, args, kwargs)
+
+
+_none_consts = {}
+
+
+def none_const(sort):
+    """the value None stored in a column of term-valued entries"""
+    k = str(sort)
+    if k not in _none_consts:
+        _none_consts[k] = z3.Const('none:' + k, sort)
+    return _none_consts[k]
 
 
 def _vkind_of(x):
